@@ -308,6 +308,32 @@ where
             ensure!(mapped.get_pixel(Point::new(x, y)) == exp, "map", "map(f): cell ({}, {}) is {:?}, expected {:?}", x, y, mapped.get_pixel(Point::new(x, y)), exp);
         }
     }
+    // drawing onto a derived display: a check that is enabled on the source display is enabled on the display
+    // derived from it (whether a derived display starts from the defaults or inherits the source's settings is
+    // not documented; both agree on this)
+    for (name, der) in [("swap_xy", &swapped), ("map", &mapped), ("clone", &display.clone())] {
+        if !allow_oob {
+            let mut dd = der.clone();
+            let r = catch(|| Pixel(Point::new(64 + (ops.len() % 3) as i32, 5), palette[0]).draw(&mut dd).unwrap());
+            match r {
+                Err(p) if p.in_harness() => return Err(panic_fail(p)),
+                Err(_) => {}
+                Ok(()) => return fail("panic:missing", format!("{}() of a display that checks for out-of-bounds drawing accepts a pixel at x >= 64 without a panic", name)),
+            }
+        }
+        if !allow_overdraw {
+            let set_cell = (0..64).flat_map(|y| (0..64).map(move |x| Point::new(x, y))).find(|p| der.get_pixel(*p).is_some());
+            if let Some(q) = set_cell {
+                let mut dd = der.clone();
+                let r = catch(|| Pixel(q, palette[0]).draw(&mut dd).unwrap());
+                match r {
+                    Err(p) if p.in_harness() => return Err(panic_fail(p)),
+                    Err(_) => {}
+                    Ok(()) => return fail("panic:missing", format!("{}() of a display that checks for overdraw accepts a second pixel at {:?} without a panic", name, q)),
+                }
+            }
+        }
+    }
     let from_points = MockDisplay::<C>::from_points(model.keys().map(|k| Point::new(k.0, k.1)), palette[0]);
     for y in 0..if derived { 64 } else { 0 } {
         for x in 0..64 {
